@@ -25,6 +25,9 @@ def gen_program(rng):
         "waiter_timeouts": [rng.choice([None, None, 5.0, 0.004]) for _ in range(2)],
         "task_yields": rng.random() < 0.5,
         "failing_task": rng.random() < 0.3,
+        # threads blocked in Reply.get()/waitfinish() of the SAME reply, started the moment the spawn is accepted
+        "getters": rng.choice([0, 0, 1, 2, 3]),
+        "getter_timeout": rng.choice([None, None, 50.0]),
     }
 
 
@@ -41,15 +44,33 @@ def run_program(prog, chooser, line_budget):
     got_k = S.SEvent(sc, "k-replies")
     replies = {}
 
+    finished = {}      # task id -> its function has returned / raised
+    getres = []
+
     def task(tid):
         runs[tid] = runs.get(tid, 0) + 1
         thread_of[tid] = sc.me().idx
-        if prog["task_yields"]:
-            em.sleep(0.01)
-        if prog["failing_task"] and tid % 2:
-            # the failing tasks of every other spawner end with a BaseException that is no Exception
-            raise (KeyboardInterrupt(tid) if (tid // 100) % 2 == 0 else KeyError(tid))
-        return tid * 10
+        try:
+            if prog["task_yields"]:
+                em.sleep(0.01)
+            if prog["failing_task"] and tid % 2:
+                # the failing tasks of every other spawner end with a BaseException that is no Exception
+                raise (KeyboardInterrupt(tid) if (tid // 100) % 2 == 0 else KeyError(tid))
+            return tid * 10
+        finally:
+            finished[tid] = True
+
+    def getter(tid, r, g):
+        try:
+            if g % 2:
+                r.waitfinish(prog.get("getter_timeout"))
+                getres.append((tid, "finished", finished.get(tid, False)))
+            else:
+                getres.append((tid, "value", r.get(prog.get("getter_timeout"))))
+        except OSError:
+            getres.append((tid, "timeout", finished.get(tid, False)))
+        except BaseException as e:  # noqa
+            getres.append((tid, "exc", type(e).__name__, list(e.args)))
 
     def spawner(si, n):
         prev = None
@@ -69,6 +90,8 @@ def run_program(prog, chooser, line_budget):
             accepted.append(tid)
             replies[tid] = r
             prev = r
+            for g in range(prog.get("getters", 0)):
+                sc.spawn(getter, (tid, r, g), name=f"getter{tid}_{g}")
             if si == 0 and prog["shutdown_after"] is not None and j + 1 >= prog["shutdown_after"]:
                 got_k.set()
 
@@ -85,7 +108,7 @@ def run_program(prog, chooser, line_budget):
 
     def done(t):
         r = replies.get(t)
-        return r is not None and r._result_ready.flag
+        return r is not None and finished.get(t, False)
 
     flags = {"primary_exited": not prog["hasprimary"]}
 
@@ -111,7 +134,7 @@ def run_program(prog, chooser, line_budget):
     # replies: value / exception / timeout behaviour (checked outside the scheduler: everything is finished or dead)
     reply_ok = True
     for t, r in replies.items():
-        if r._result_ready.flag:
+        if finished.get(t):
             try:
                 v = r.get(timeout=0)
                 reply_ok = reply_ok and v == t * 10 and not (prog["failing_task"] and t % 2)
@@ -131,7 +154,7 @@ def run_program(prog, chooser, line_budget):
                 reply_ok = False
     return {
         "result": res, "deadlock": sc.deadlock_info, "accepted": accepted, "refused": refused, "runs": dict(runs), "thread_of": dict(thread_of),
-        "waitres": waitres, "reply_ok": reply_ok, "schedule": sc.trace, "primary_exited": flags["primary_exited"],
+        "waitres": waitres, "getres": sorted(getres, key=repr), "reply_ok": reply_ok, "schedule": sc.trace, "primary_exited": flags["primary_exited"],
         "shut": pool._shuttingdown, "running_left": len(pool._running), "clock": sc.clock,
         "thread_errors": [repr(t.exc) for t in sc.threads if t.exc is not None],
     }
@@ -160,6 +183,20 @@ def check_run(ck, prog, out, ex):
             ck.fail("waitall-true-with-unfinished-task", ex)
     if not out["reply_ok"]:
         ck.fail("reply-does-not-yield-result-or-exception", ex)
+    for g in out.get("getres", []):
+        t = g[0]
+        failing = prog["failing_task"] and t % 2 == 1
+        if g[1] == "timeout":
+            if g[2]:
+                ck.fail("reply-wait-timed-out-although-the-task-finished", ex)
+        elif g[1] == "finished":
+            if not g[2]:
+                ck.fail("reply-waitfinish-returned-before-the-task-finished", ex)
+        elif g[1] == "value":
+            if failing or g[2] != t * 10:
+                ck.fail("reply-get-yields-wrong-value", ex)
+        elif not failing or g[3] != [t] or g[2] != ("KeyError" if (t // 100) % 2 == 1 else "KeyboardInterrupt"):
+            ck.fail("reply-get-raises-wrong-exception:" + str(g[2]), ex)
     if out["thread_errors"]:
         ck.fail("pool-thread-raised:" + out["thread_errors"][0][:40], ex)
     if res == "deadlock":
@@ -169,6 +206,8 @@ def check_run(ck, prog, out, ex):
                 ck.fail("primary-does-not-leave-after-shutdown", ex)
             elif not out["shut"] and not out["primary_exited"] and all(("primary" in d) for d in out["deadlock"] or []):
                 pass  # only the integrated primary thread is left waiting for work: no shutdown was requested in this program
+            elif any("getter" in d for d in out["deadlock"] or []):
+                ck.fail("reply-waiter-never-woken", ex)
             elif any("waiter" in d for d in out["deadlock"] or []) and out["running_left"] == 0:
                 ck.fail("waitall-lost-wakeup", ex)
             else:
@@ -205,7 +244,7 @@ def main(tier, seed, replay=None):
         chooser = S.ReplayChooser(schedule) if schedule is not None else (S.PCTChooser(r, depth=rng.choice([2, 3, 4]), est_steps=120) if sd % 4 == 0 else S.RandomChooser(r, line_p=0.15))
         out = run_program(prog, chooser, lb)
         nruns += 1
-        ex = {"prog": prog, "schedule": out["schedule"], "line_budget": lb, "outcome": {k: out[k] for k in ("result", "accepted", "refused", "runs", "waitres", "primary_exited", "shut", "running_left", "deadlock", "clock")}}
+        ex = {"prog": prog, "schedule": out["schedule"], "line_budget": lb, "outcome": {k: out[k] for k in ("result", "accepted", "refused", "runs", "waitres", "getres", "primary_exited", "shut", "running_left", "deadlock", "clock")}}
         ck.case(("p", repr(prog), tuple(out["schedule"])), nontrivial=len(out["schedule"]) > 2)
         ck.count("runs_" + prog["backend"] + ("_primary" if prog["hasprimary"] else "_noprimary"))
         ck.count("result_" + str(out["result"]))
@@ -226,7 +265,7 @@ def main(tier, seed, replay=None):
             chooser = S.RandomChooser(r, line_p=0.3) if k % 2 else S.PCTChooser(r, depth=5, est_steps=200)
             out = run_program(prog, chooser, 10)
             nruns += 1
-            ex = {"prog": prog, "schedule": out["schedule"], "line_budget": 10, "outcome": {k2: out[k2] for k2 in ("result", "accepted", "refused", "runs", "waitres", "primary_exited", "shut", "running_left", "deadlock", "clock")}}
+            ex = {"prog": prog, "schedule": out["schedule"], "line_budget": 10, "outcome": {k2: out[k2] for k2 in ("result", "accepted", "refused", "runs", "waitres", "getres", "primary_exited", "shut", "running_left", "deadlock", "clock")}}
             ck.case(("search", repr(prog), tuple(out["schedule"])), nontrivial=True)
             check_run(ck, prog, out, ex)
             if ck.failures:
@@ -240,4 +279,4 @@ def main(tier, seed, replay=None):
         c09_model.trace_inclusion(ck, ok, tier, replay)
     except ImportError:
         pass
-    return ck.finish(rule="generated pool programs (thread / main_thread_only, with and without an integrated primary thread, 1-3 spawner threads of 1-3 tasks, optional trigger_shutdown free-running or right after the k-th accepted spawn, 0-2 waitall callers with and without time-out, yielding and failing tasks) x random / PCT schedules at synchronisation points and with 3 or 6 line-level preemptions. distinct = distinct (program, schedule); non-trivial = more than two scheduling decisions.")
+    return ck.finish(rule="generated pool programs (thread / main_thread_only, with and without an integrated primary thread, 1-3 spawner threads of 1-3 tasks, optional trigger_shutdown free-running or right after the k-th accepted spawn, 0-2 waitall callers with and without time-out, 0-3 threads blocked in get()/waitfinish() of each reply from the moment it is accepted, yielding and failing tasks) x random / PCT schedules at synchronisation points and with 3 or 6 line-level preemptions. distinct = distinct (program, schedule); non-trivial = more than two scheduling decisions.")
